@@ -47,7 +47,7 @@ SUB = ["host", "port", "name", "mode", "opts", "a", "b", "c", "ttl"]
 WORDS = ["alpha", "beta", "x1", "prod", "dev", "h1", "west", "v2", "some text"]
 FLOATS = ["0.5", "1.5", "2.25", "-3.75"]
 
-HEADER = ("From Coq Require Import List String ZArith.\n"
+HEADER = ("From Coq Require Import List String NArith ZArith.\n"
           "From IocVerif Require Import Model.Sorter Model.ConfigMerge Corr.Check_C15.\n"
           "Import ListNotations.\nLocal Open Scope list_scope.\n")
 
@@ -206,7 +206,52 @@ def doc_text(doc, style):
     return "\n".join(yaml_block(doc)) + "\n"
 
 
+# command-line value texts.  PUNCT: strconv2.ParseAny reads them as the text itself (whatever punctuation they
+# contain); TYPED: ParseAny reads a quoted text (quotes dropped), a number, a bool, a list or a map.
+PUNCT_VALUES = ["a=b", "a=b=c", "=", "==", "x=", "=x", "k=v", "x=1&y=2", "user:pw@tcp(h:3306)/db?x=1&y=2", "aGVsbG8=", "aGk==",
+                "http://h:80/p?a=b#frag", "k:v", "k: v", "a#b", "a #b", "#c", "x,y", "some text", " lead", "trail ", "'a=b", "a\"b",
+                "{a=b}", "key=[v]", "(a=b)", "a=(b", "a\\b", "$", "${x}", "-", "--", "~", "null", "yes", "1e3", "0x10", "*", "&x",
+                "!t", "%", "@a", "`", "|", ">", "?", "- x", "[a", "b]", "{", "}", "a;b", "a|b=c", "p=q r=s"]
+TYPED_VALUES = ['"a=b"', "'q'", '"k: v"', "''", '""', "'x=y z'", "007", "+5", "1.50", "-0.5", "8080", "True", "FALSE", "[1,2]",
+                "[a=b,c]", "[]", "[x,y=z]", '{"a":1}', '{"a":"b=c","n":[1,2]}', "map[a:b=c]", "map[a:1 b:x]", "{}", "1000000",
+                "0.00001", "[k:v,#,a b]"]
+
+
+def arg_value_ok(t):
+    """texts the generator does not emit: a lone quote character makes strconv2.ParseAny panic (val[1:0]; the fault is in
+    go-kid/strconv2 and already recorded for C16 as KF-C16e) - alone or as an element of a [..] list"""
+    if t in ("'", '"'):
+        return False
+    if t.startswith("[") and ("'" in t or '"' in t):
+        return False
+    return all(32 <= ord(ch) < 127 for ch in t)
+
+
+def gen_arg_value(rng):
+    r = rng.random()
+    if r < 0.5:
+        return rng.choice(PUNCT_VALUES)
+    if r < 0.7:
+        return rng.choice(TYPED_VALUES)
+    while True:
+        t = "".join(rng.choice("ab1=:#, '\"?&/@.-_+[]{}()") for _ in range(rng.choice([1, 2, 3, 4, 6, 8])))
+        if arg_value_ok(t):
+            return t
+
+
+def arg_value_class(t):
+    if t[:1] in ("'", '"') and t[-1:] == t[:1] and len(t) >= 2:
+        return "quoted"
+    if t[:1] in "[{" or t.startswith("map["):
+        return "bracketed"
+    if "=" in t:
+        return "text_with_equals_sign"
+    return "other_text_or_number"
+
+
 def arg_text(p, a):
+    if a[0] == "t":
+        return "--app.config=%s=%s" % (".".join(p), a[1])
     if a[0] == "i":
         v = str(a[1])
     elif a[0] == "f":
@@ -221,9 +266,11 @@ def arg_text(p, a):
 def gen_args(rng, schema, profile):
     """args of one ArgsLoader as [(path, atom)]; profile: ok | dup | overwrite | panic"""
     doc = revalue(rng, schema, 0.6, 0.0)
-    pairs = [(p, a) for p, a in leaf_paths(doc) if a[0] in "isbf" and (a[0] != "s" or " " not in a[1])]
+    pairs = [(p, a) for p, a in leaf_paths(doc) if a[0] in "isbf"]
     rng.shuffle(pairs)
     pairs = pairs[:rng.choice([1, 2, 3, 4])]
+    # value texts with punctuation ('=' ':' '#' ',' blanks, quotes, brackets ...): the model types them (parse_arg)
+    pairs = [(p, ["t", gen_arg_value(rng)] if rng.random() < 0.3 else a) for p, a in pairs]
     if profile == "dup" and pairs:
         p, _ = rng.choice(pairs)
         pairs.append((p, gen_atom(rng, False)))
@@ -235,7 +282,7 @@ def gen_args(rng, schema, profile):
         p, a = rng.choice(deep)
         i = pairs.index((p, a))
         pairs.insert(rng.randint(0, i), (p[:-1], ["i", 7]))
-    return [[p, a if a[0] != "s" or " " not in a[1] else ["s", "w"]] for p, a in pairs]
+    return [[p, a] for p, a in pairs]
 
 
 # ------------------------------------------------------------------------------------------------
@@ -578,13 +625,14 @@ def coq_doc(t):
     return vlib.coq_list("(%s, %s)" % (cs(k), coq_tree(v)) for k, v in t[1])
 
 
-def coq_args(args):
-    return vlib.coq_list("(%s, %s)" % (coq_path(p), coq_atom(a)) for p, a in args)
+def coq_args(args, lead=()):
+    """the argument strings as the ArgsLoader receives them"""
+    return vlib.coq_list(vlib.coq_bytes(t) for t in list(lead) + [arg_text(p, a) for p, a in args])
 
 
 def coq_loader(L):
     if L["kind"] == "args":
-        k = "LArgs %s" % coq_args(L["args"])
+        k = "LArgv %s" % coq_args(L["args"], ("prog", "-x"))
     elif L["kind"] == "raw":
         k = "LRaw %s" % ("None" if L["doc"] is None else "(Some %s)" % coq_doc(L["doc"]))
     elif L["kind"] == "user":
@@ -830,7 +878,7 @@ def coq_hist(cid, case, obs):
     bound = "None"
     if case["prefix"] and last_ok:
         bound = "(Some (%s, %s))" % (cs(case["prefix"]), coq_opt_tree(obs_tree(obs.get("bound"))))
-    start = "[]" if case["start"] == "new" else "[mkLoader 0 (LArgs %s)]" % coq_args(case["osargs"])
+    start = "[]" if case["start"] == "new" else "[mkLoader 0 (LArgv %s)]" % coq_args(case["osargs"])
     return "mkHCase %d %s %s %s" % (cid, start, vlib.coq_list(steps), bound)
 
 
@@ -1002,7 +1050,7 @@ def go_reuse(ctx, case):
 
 def coq_reuse(cid, case, obs):
     routs = obs.get("rounds") or []
-    start = "[mkLoader 0 (LArgs %s)]" % coq_args(case["osargs"])
+    start = "[mkLoader 0 (LArgv %s)]" % coq_args(case["osargs"])
     if obs["out"] != "ok" or len(routs) != len(case["rounds"]):
         return "mkRCase %d [mkHCase %d %s [HInit OPanic []] None]" % (cid, cid, start)   # the driver itself failed
     objs = []
@@ -1578,6 +1626,15 @@ def run(ctx):
         st = repeat_stats(c)
         for k, f in zip(rep, ("same", "aba", "samefile", "rawfile", "args", "osargs")):
             rep[k] += 1 if st[f] else 0
+    argtexts = {"typed_by_the_generator(int/float/bool/word)": 0, "text_with_equals_sign": 0, "other_text_or_number": 0,
+                "quoted": 0, "bracketed": 0}
+    for c in cases:
+        everyone = reuse_loaders(c) if is_reuse(c) else hist_loaders(c) if is_hist(c) else \
+            [L for o in c["ops"] for L in o["loaders"]] + [{"kind": "args", "args": c["osargs"]}]
+        for L in everyone:
+            if L["kind"] == "args":
+                for _p, a in L["args"]:
+                    argtexts[arg_value_class(a[1]) if a[0] == "t" else "typed_by_the_generator(int/float/bool/word)"] += 1
     ids = sorted(by_id)
     plain_ids = [i for i in ids if is_plain(by_id[i]["case"])]
     samples = [by_id[i] for i in plain_ids[:1] + plain_ids[-1:] + [i for i in ids if is_hist(by_id[i]["case"])][-1:] +
@@ -1602,6 +1659,7 @@ def run(ctx):
                                "child_process_cases(real os.Args)": sum(1 for c in cases if c.get("child")),
                                "prefix_bound_cases": sum(1 for c in cases if c.get("prefix")),
                                "repeated_payloads": rep,
+                               "command_line_values(--app.config=K=V)": argtexts,
                                "cases_with_loaders_of_equal_class_and_Order_giving_one_leaf_different_values": ties,
                                "histories_on_one_Configure": hs,
                                "re-used_option_values_and_loader_slices": rs,
@@ -1615,6 +1673,10 @@ def run(ctx):
     return vlib.decide(ctx, static_ok, by_id, M, V, cov, classify_known=classify, widen=widen, shrink=shrink,
                        assumptions=["documents have unique keys per map (wf_doc, re-checked on every generated case)",
                                     "keys are lower-case identifiers without dots (viper folds case and splits on '.')",
+                                    "command-line values are printable ASCII; the typing of a value text is the model's (Model/Strconv.v "
+                                    "parse_any through ConfigMerge.parse_arg): quoted texts lose the quotes, number-like texts become numbers "
+                                    "(007 = 7), [..] / {json} / map[..] become lists / maps; a value that is one lone quote character is not "
+                                    "generated (strconv2.ParseAny panics on it: KF-C16e's fault in go-kid/strconv2)",
                                     "loaders of equal class and Order are consulted in the order they were added (sort.Slice on at most 12 "
                                     "elements is a stable insertion sort; no case has more than 12 loaders of one ordered class)",
                                     "a later Initialize of the same Configure merges on top of what earlier ones left (nothing "
